@@ -13,7 +13,20 @@ def giles_scripts(n, seed):
         l0 = rng.randint(0, 3)
         out.append({"L0": l0, "N0": rng.choice([2, 3, 4, 6]), "LMax": l0 + rng.randint(0, 4), "fixed": False, "steps": [],
                     "giles": {"rmse": rng.choice([1.0, 1.5, 2.0, 3.0, 0.75]), "c0": rng.choice([2.0, 4.0, 6.0, 8.0]),
-                              "jit": rng.choice([0.0, 0.25, 0.5])}})
+                              "jit": rng.choice([0.0, 0.25, 0.5]), "rates": "given"}})
+    # convergence rates regressed from the level means (no rates given): runs that reach four levels and more; several
+    # such runs follow each other in one process
+    for i in range(n // 2):
+        l0 = rng.randint(0, 2)
+        out.append({"L0": l0, "N0": rng.choice([3, 4, 6, 8]), "LMax": l0 + rng.randint(2, 5), "fixed": False, "steps": [],
+                    "giles": {"rmse": rng.choice([0.5, 0.75, 1.0, 0.3]), "c0": rng.choice([2.0, 4.0, 6.0, 8.0]),
+                              "jit": rng.choice([0.0, 0.25, 0.5]), "rates": "regressed"}})
+    # ... and with one level (>= 3) whose mean correction is almost nil: the work-around that floors such means is active
+    for i in range(max(4, n // 6)):
+        dip = rng.choice([3, 4])
+        out.append({"L0": dip, "N0": rng.choice([4, 6, 8]), "LMax": dip + rng.randint(0, 2), "fixed": False, "steps": [],
+                    "giles": {"rmse": rng.choice([0.5, 1.0, 0.3]), "c0": rng.choice([2.0, 4.0, 8.0]),
+                              "jit": rng.choice([0.0, 0.25]), "rates": "regressed", "dip": dip}})
     return out
 
 
